@@ -557,7 +557,7 @@ def r11_11(ctx) -> None:
     texts = set()
     for st in stores:
         if st.value is not None:
-            texts |= set(resolve_all(eng, init, st.value))
+            texts |= {t_.replace(", **{}", "") for t_ in resolve_all(eng, init, st.value)}  # `**{}` adds nothing
     allowed = {"{}", f"{{**{ov}, **{pm}, 'kty': {sn}.key_type}}", f"{{**{ov}, 'kty': {sn}.key_type}}", f"{{**{ov}, **({pm} or {{}}), 'kty': {sn}.key_type}}"}
     ok = bool(stores) and texts <= allowed and len(texts) >= 2 and any(f"**{pm}" in t_ or f"**({pm}" in t_ for t_ in texts)
     if ok:
